@@ -25,15 +25,20 @@ evaluate(prog, args) -> ('ret', value) | ('exc', 'java.lang.ArithmeticException'
 to_java(prog, name) -> Java source of the method (used only by the generator's self test against a real JVM)
 features_used(prog) -> set of AST-level features (incl. the shape features dead_branch, dowhile_kill, const_loop_cond,
                        fallthrough_any, narrow_switch, loop_return, break_in_if, switch_inner_return, deep, narrow_join,
-                       see programs());
+                       div_zero, narrow_reuse, see programs());
 narrow_joins(prog) -> set of (kinds, join) e.g. ('BC', 'ifelse'): reads of an int local whose reaching definitions are
                        two or more byte/short/char casts of at least two different kinds (reaching definitions of the AST)
+narrow_reuses(prog) -> set of (kind, join) e.g. ('B', 'if'): casts `(byte|short|char) v` of a local v that some other
+                       statement assigns a cast of that same kind, at a point where a reaching definition of v is wider
+div_zeros(prog) -> set of (type, form, use) e.g. ('I', 'lit', 'dead'): divisions / remainders whose divisor is the literal 0
+                       ('lit') or a local that only ever holds the constant 0 ('reg'); use: dead arm after_exit self normal inline
 ops_used(prog) -> set of operator names;  nesting(prog) -> '<inner>_in_<parent>' tags;  build_dex(progs) -> DEX bytes
 shrink_candidates(prog) -> list of strictly smaller programs (one-step reductions) for batch shrinking
 descriptor(prog) -> '(IJ)I' ;  arg_tuples(prog, rng, n) -> boundary + random argument tuples
 """
 import random
 import struct
+import zlib
 
 from vf.gen import dalvik_spec as ds
 
@@ -45,7 +50,7 @@ FEATURES = ('arith', 'divrem', 'bitwise', 'shift', 'ushr', 'neg', 'not', '2addr'
             'while', 'dowhile', 'loop_bottom', 'break', 'nested', 'packed', 'sparse', 'fallthrough',
             'early_return', 'empty_case', 'dead_branch', 'dowhile_kill', 'const_loop_cond',
             'fallthrough_any', 'narrow_switch', 'loop_return', 'break_in_if', 'switch_inner_return', 'deep',
-            'narrow_join')
+            'narrow_join', 'div_zero', 'narrow_reuse')
 
 BIN_OPS = ('add', 'sub', 'mul', 'div', 'rem', 'and', 'or', 'xor', 'shl', 'shr', 'ushr')
 OP_FEATURE = {'add': 'arith', 'sub': 'arith', 'mul': 'arith', 'div': 'divrem', 'rem': 'divrem', 'and': 'bitwise',
@@ -62,6 +67,7 @@ CAST_FEATURE = {'i2l': 'cast_i2l', 'l2i': 'cast_l2i', 'i2b': 'cast_narrow', 'i2s
 CAST_TYPES = {'i2l': (I, J), 'l2i': (J, I), 'i2b': (I, I), 'i2s': (I, I), 'i2c': (I, I)}
 LOWER_FEATURES = ('2addr', 'lit8', 'lit16', 'rsub', 'loop_bottom')      # decided by the lowering, not by the AST
 MAX_REGS = 16
+DZ_PERCENT, NR_PERCENT = 6, 12     # chance per statement slot of the div_zero / narrow_reuse construct (programs())
 
 
 class Reject(Exception):
@@ -433,8 +439,13 @@ def _shape_features(prog):
                 f.add('fallthrough_any')
     if _has_wide_case_label(body) and any(e_[0] == 'k' and e_[2] in ('i2b', 'i2s', 'i2c') for e_ in e_all):
         f.add('narrow_switch')
-    if narrow_joins(prog):
+    joins, reuses = _narrow_analysis(prog)
+    if joins:
         f.add('narrow_join')
+    if reuses:
+        f.add('narrow_reuse')
+    if div_zeros(prog):
+        f.add('div_zero')
     return f
 
 
@@ -447,15 +458,33 @@ def narrow_joins(prog):
     definition, no parameter value). kinds: 'BC' 'BS' 'CS' 'BCS'; join: where these definitions met - 'ifelse' (both arms
     of an if/else), 'if' (an if without else: the value from before meets the one of the arm), 'switch', 'loop'
     (loop-carried: the value from before the loop meets the one of the body), several when the set grew in steps."""
+    return _narrow_analysis(prog)[0]
+
+
+def narrow_reuses(prog):
+    """Reaching definitions on the AST. -> set of (kind, join): one entry per cast `(byte|short|char) v` applied directly
+    to a local v such that (1) some assignment of the program gives v a cast of that same kind ('B' 'S' 'C') and (2) at
+    the cast at least one reaching definition of v is something else (a plain int value, a cast of another kind, a
+    parameter value): the conversion is not redundant although "v is a byte" somewhere else. join: where the reaching
+    definitions met ('if' 'ifelse' 'switch' 'loop'), 'straight' when there is a single reaching definition."""
+    return _narrow_analysis(prog)[1]
+
+
+def _narrow_analysis(prog):
+    """-> (narrow_joins, narrow_reuses), one pass of reaching definitions (see there)"""
     kinds = {}                 # definition id (path of the statement) -> 'B' 'S' 'C' | None
     origin = {}                # (var, frozenset of definition ids) -> {join tags}
     back = {}                  # path of a loop -> state at the end of its body (grows until the fixed point)
     found = set()
+    reuse = set()
     flags = {'record': False, 'changed': False}
     empty = frozenset()
+    assigned = {}              # (var, letter) -> paths of the statements that assign the variable a narrow cast of that kind
 
     def define(st, v, path, e):
         kinds[path] = NARROW_LETTER.get(e[2]) if e is not None and e[0] == 'k' else None
+        if kinds[path] is not None:
+            assigned.setdefault((v, kinds[path]), set()).add(path)
         st = dict(st)
         st[v] = frozenset([path])
         return st
@@ -473,7 +502,7 @@ def narrow_joins(prog):
                 origin.setdefault((v, u), set()).add(tag)
         return out
 
-    def use(e, st):
+    def use(e, st, at):
         if not flags['record']:
             return
         for v in sorted(_vars_of(e)):
@@ -482,13 +511,27 @@ def narrow_joins(prog):
             if len(ds_) >= 2 and None not in ks and len(ks) >= 2:
                 for tag in sorted(origin.get((v, ds_), ())) or ['other']:
                     found.add((''.join(sorted(ks)), tag))
+        if not assigned:
+            return
+        es = []
+        _walk_exprs(e, es)
+        for x in es:
+            if x[0] == 'k' and x[2] in NARROW_LETTER and x[3][0] == 'v':
+                v, letter = x[3][2], NARROW_LETTER[x[2]]
+                if not (assigned.get((v, letter), empty) - {at}):
+                    continue            # no other statement makes v a value of that kind
+                ds_ = st.get(v, empty)
+                if any(kinds[d] != letter for d in ds_):
+                    for tag in (sorted(origin.get((v, ds_), ())) or ['other']) if len(ds_) >= 2 else ['straight']:
+                        reuse.add((letter, tag))
 
-    def use_cond(c, st):
-        es, cs = [], []
-        _walk_cond(c, es, cs)
-        for e in es:
-            if e[0] == 'v':
-                use(e, st)
+    def use_cond(c, st, at):
+        if c[0] == 'cmp':
+            use(c[2], st, at)
+            use(c[3], st, at)
+        else:
+            use_cond(c[1], st, at)
+            use_cond(c[2], st, at)
 
     def block(blk, st, brk, path):
         for i, s in enumerate(blk):
@@ -497,18 +540,18 @@ def narrow_joins(prog):
             p = path + (i,)
             k = s[0]
             if k == 'set':
-                use(s[2], st)
+                use(s[2], st, p)
                 st = define(st, s[1], p, s[2])
             elif k == 'ret':
-                use(s[1], st)
+                use(s[1], st, p)
                 st = None
             elif k == 'if':
-                use_cond(s[1], st)
+                use_cond(s[1], st, p)
                 a = block(s[2], st, brk, p + (0,))
                 b = block(s[3], st, brk, p + (1,))
                 st = merge([a, b], 'ifelse' if s[3] else 'if')
             elif k == 'breakif':
-                use_cond(s[1], st)
+                use_cond(s[1], st, p)
                 brk.append(st)
             elif k == 'loop':
                 _, kind, cv, bound, step, extra, body = s
@@ -516,19 +559,19 @@ def narrow_joins(prog):
                 head = merge([st, back.get(p)], 'loop')
                 inner = []
                 if kind == 'while' and extra is not None:
-                    use_cond(extra, head)
+                    use_cond(extra, head, p)
                 out = block(body, head, inner, p + (0,))
                 if out is not None:
                     out = define(out, cv, p + ('inc',), None)
                     if kind == 'dowhile' and extra is not None:
-                        use_cond(extra, out)
+                        use_cond(extra, out, p)
                 nb = merge([back.get(p), out], 'loop')
                 if nb != back.get(p):
                     back[p] = nb
                     flags['changed'] = True
                 st = merge([head if kind == 'while' else None, out] + inner, 'loop')
             elif k == 'switch':
-                use(s[1], st)
+                use(s[1], st, p)
                 exits, prev = [], None
                 for j, (keys, cb, ft) in enumerate(s[2]):
                     o = block(cb, merge([st, prev], 'switch'), brk, p + (j,))
@@ -553,7 +596,119 @@ def narrow_joins(prog):
         raise AssertionError('reaching definitions did not converge')
     flags['record'] = True
     block(prog['body'], start, [], ())
-    return found
+    return found, reuse
+
+
+def _loop_counters(blk, out):
+    for s in blk:
+        if s[0] == 'if':
+            _loop_counters(s[2], out); _loop_counters(s[3], out)
+        elif s[0] == 'loop':
+            out.add(s[2])
+            _loop_counters(s[6], out)
+        elif s[0] == 'switch':
+            for c in s[2]:
+                _loop_counters(c[1], out)
+            _loop_counters(s[3], out)
+    return out
+
+
+def zero_vars(prog):
+    """locals (not parameters, not loop counters) that are assigned somewhere and only ever the constant 0: registers
+    that hold the constant 0 wherever they are read"""
+    stmts, exprs, conds = [], [], []
+    walk(prog['body'], stmts, exprs, conds)
+    np_ = len(prog['params'])
+    zero, other = set(), set(range(np_)) | _loop_counters(prog['body'], set())
+    for s, _d in stmts:
+        if s[0] == 'set':
+            (zero if s[2][0] == 'c' and s[2][2] == 0 else other).add(s[1])
+    return zero - other
+
+
+def _is_div_zero(e, zv):
+    return e[0] == 'b' and e[2] in ('div', 'rem') and ((e[4][0] == 'c' and e[4][2] == 0) or (e[4][0] == 'v' and e[4][2] in zv))
+
+
+def div_zeros(prog):
+    """-> set of (type, form, use), one entry per division or remainder whose divisor is the literal 0 (form 'lit') or a
+    local that only ever holds the constant 0 (form 'reg', zero_vars). use says what becomes of the quotient:
+    'dead'       it is the whole right-hand side of `t = x / 0` and nothing reads t
+    'self'       `t = t / 0` (the dividend is the target: the 2addr shape) and nothing else reads t
+    'arm'        `t = x / 0`, and t is read only inside arms / cases / bodies of later statements of the same block
+    'after_exit' `t = x / 0`, and before the first read of t in the same block there is an if or switch that may return
+    'normal'     `t = x / 0` with any other read of t
+    'inline'     the division is an operand of a larger expression, of a condition, of a return or of a switch selector"""
+    zv = zero_vars(prog)
+    out = set()
+    stmts, exprs, conds = [], [], []
+    walk(prog['body'], stmts, exprs, conds)
+    if not any(_is_div_zero(e, zv) for e in exprs):
+        return out
+    roots = {id(s[2]) for s, _d in stmts if s[0] == 'set' and _is_div_zero(s[2], zv)}
+    for e in exprs:
+        if _is_div_zero(e, zv) and id(e) not in roots:
+            out.add((e[1], 'lit' if e[4][0] == 'c' else 'reg', 'inline'))
+
+    def reads_flat(s, v):
+        """does the statement itself (not its nested blocks) read v"""
+        k = s[0]
+        if k == 'set':
+            return v in _vars_of(s[2])
+        if k == 'ret':
+            return v in _vars_of(s[1])
+        if k == 'switch':
+            return v in _vars_of(s[1])
+        if k in ('if', 'breakif'):
+            return v in _cond_vars(s[1])
+        if k == 'loop':
+            return s[5] is not None and v in _cond_vars(s[5])
+        return False
+
+    def nested(s):
+        k = s[0]
+        if k == 'if':
+            return [s[2], s[3]]
+        if k == 'loop':
+            return [s[6]]
+        if k == 'switch':
+            return [c[1] for c in s[2]] + [s[3]]
+        return []
+
+    def reads_deep(blk, v):
+        return sum((1 if reads_flat(s, v) else 0) + sum(reads_deep(b, v) for b in nested(s)) for s in blk)
+
+    def has_ret(blk):
+        return any(s[0] == 'ret' or any(has_ret(b) for b in nested(s)) for s in blk)
+
+    total = {}
+
+    def scan(blk):
+        for i, s in enumerate(blk):
+            for b in nested(s):
+                scan(b)
+            if s[0] != 'set' or id(s[2]) not in roots:
+                continue
+            t, e = s[1], s[2]
+            own = 1 if t in _vars_of(e) else 0
+            if t not in total:
+                total[t] = reads_deep(prog['body'], t)
+            form = 'lit' if e[4][0] == 'c' else 'reg'
+            if total[t] - own == 0:
+                use = 'self' if own else 'dead'
+            else:
+                rest = blk[i + 1:]
+                inside = sum(reads_deep(b, t) for r in rest for b in nested(r))
+                flat = [j for j, r in enumerate(rest) if reads_flat(r, t)]
+                if not flat and inside == total[t] - own:
+                    use = 'arm'
+                elif flat and any(r[0] in ('if', 'switch') and any(has_ret(b) for b in nested(r)) for r in rest[:flat[0]]):
+                    use = 'after_exit'
+                else:
+                    use = 'normal'
+            out.add((e[1], form, use))
+    scan(prog['body'])
+    return out
 
 
 def _adjacent_fallthrough(keys, next_keys, table_keys):
@@ -778,6 +933,7 @@ class _Lowering:
         self.tmp_all = []          # [(ty)] in allocation order -> symbolic ('t', k)
         self.loop_exit = []
         self.lower = set(prog.get('lower', LOWER_FEATURES))
+        self.zero_vars = zero_vars(prog)     # only for the 'divzero:<instruction>' tags in `used`
 
     # -- registers ----------------------------------------------------------------------------
     def var(self, i):
@@ -889,6 +1045,12 @@ class _Lowering:
                     forms.append('lit8')
                 if lop in LIT16_OPS and -32768 <= c <= 32767 and 'lit16' in self.lower:
                     forms.append('lit16')
+                divzero = c == 0 and lop in ('div', 'rem')
+                if forms and divzero:
+                    # `x / 0` and `x % 0` are legal Java (they throw at run time): every encoding a compiler may pick is
+                    # used with the same weight - /lit8, /lit16, or the constant in a register (3-register and 2addr forms)
+                    zform = self.rng.choice(forms + ['reg'])
+                    forms = [zform] if zform != 'reg' else []
                 if forms:
                     a = self.ev(x)
                     self.release(a)
@@ -897,6 +1059,8 @@ class _Lowering:
                     name = '%s-int/%s' % (lop, form)
                     self.used.add(name)
                     self.used.add(form)
+                    if divzero:
+                        self.used.add('divzero:' + name)
                     if form == 'lit8':
                         self.emit(name, AA=('reg', dst), BB=('reg', a), CC=c)
                     else:
@@ -923,13 +1087,18 @@ class _Lowering:
         name = '%s-%s' % (op, sfx)
         if dst == b and dst != a and op in COMMUTATIVE:
             a, b = b, a
+        divzero = op in ('div', 'rem') and ((y[0] == 'c' and y[2] == 0) or (y[0] == 'v' and y[2] in self.zero_vars))
         if dst == a and '2addr' in self.lower and self.chance(0.8):
             self.used.add('2addr')
             self.used.add(name + '/2addr')
             self.emit(name + '/2addr', A=('reg', dst), B=('reg', b))
+            if divzero:
+                self.used.add('divzero:' + name + '/2addr')
         else:
             self.used.add(name)
             self.emit(name, AA=('reg', dst), BB=('reg', a), CC=('reg', b))
+            if divzero:
+                self.used.add('divzero:' + name)
         return dst
 
     # -- conditions ---------------------------------------------------------------------------
@@ -1314,6 +1483,23 @@ def programs(features=FEATURES, max_stmts=6):
     narrow_join off      no read of a local has two or more reaching definitions that are all byte/short/char casts of
                          different kinds (narrow_joins(prog) is empty: if the other features produce one by chance the casts
                          are removed from the program)
+    div_zero on          (needs divrem) at most once per program a division or remainder by zero, int or long - what `x / 0`,
+                         `x % 0` and `z = 0; .. x / z` compile to (javac accepts them, they throw ArithmeticException at run
+                         time). Divisor: the literal 0 (the lowering picks /lit8, /lit16 or a constant register with equal weight;
+                         long: const-wide register) or a dedicated local that only ever holds 0 (set right before or at the top
+                         of the method). Quotient: dead (`t = x / 0` or `t = x; t = t / 0`, t never read), read only inside one
+                         arm of a later if (by the accumulator or a return), read after an if whose arm returns, used normally
+                         (assigned to a live local, `w = w / 0`, folded into the accumulator, returned). div_zeros(prog) measures it.
+    div_zero off         the dedicated statement is not generated (0 remains a literal like any other, so a division by it may
+                         still be drawn by chance)
+    narrow_reuse on      (needs cast_narrow) at most once per program a dedicated int local R is assigned a byte/short/char cast
+                         on one path and is itself the operand of a cast (mostly of the same kind) where its reaching definition
+                         is a wider value: `R = a + b; if (c) { R = (byte) a; return R; } return (byte) R;`. Shapes: ret_arm (as
+                         quoted, and mirrored), if (`R = wide; if (c) R = (K) e;` then the cast), ifelse (`if (c) R = (K) e; else
+                         R = (K) R;` either way round), switch (cases assign (K) e or (K) R), loop (`R = (K) e; loop { .. (K) R ..;
+                         R = R + x; }`). The cast of R goes into the accumulator, another local, R itself (int-to-byte vR, vR)
+                         or a return. narrow_reuses(prog) measures it.
+    narrow_reuse off     the dedicated construct is not generated
     """
     from hypothesis import strategies as st
     F = frozenset(features)
@@ -1405,6 +1591,8 @@ def programs(features=FEATURES, max_stmts=6):
 
     @st.composite
     def program(draw):
+        crng_base = draw(st.integers(0, 1 << 30))
+        crng = random.Random(crng_base)         # shape choices of the div_zero / narrow_reuse constructs, see pick()
         nparams = draw(st.integers(1, 3))
         tys = [I, I, I, J] if 'long' in F else [I]
         params = [draw(st.sampled_from(tys)) for _ in range(nparams)]
@@ -1416,14 +1604,18 @@ def programs(features=FEATURES, max_stmts=6):
         if use_acc:
             locals_.append(ret)
         counters = []
-        hidden = []                    # the dedicated locals of narrow joins: read and written only by their construct
-        state = {'budget': draw(st.integers(1, max_stmts)), 'loops': 0, 'nj': 0}
+        hidden = []                    # dedicated locals (narrow joins / reuses, div_zero): read and written only by their construct
+        nregs = []                     # those of the narrow joins / reuses
+        zero_init = []                 # const-0 locals of div_zero that get their value at the top of the method
+        state = {'budget': draw(st.integers(1, max_stmts)), 'loops': 0, 'nj': 0, 'dz': 0, 'nr': 0}
         nj_on = 'narrow_join' in F and 'cast_narrow' in F
+        nr_on = 'narrow_reuse' in F and 'cast_narrow' in F
+        dz_on = 'div_zero' in F and 'divrem' in F
         nc_base = set(range(nparams)) | ({acc} if use_acc else set())     # never hold a compile-time constant
 
         def readable():
             return {I: [i for i, t in enumerate(locals_) if t == I and i not in hidden],
-                    J: [i for i, t in enumerate(locals_) if t == J]}
+                    J: [i for i, t in enumerate(locals_) if t == J and i not in hidden]}
 
         def writable():
             return [i for i in range(len(locals_)) if i not in counters and i != acc and i not in hidden]
@@ -1554,12 +1746,13 @@ def programs(features=FEATURES, max_stmts=6):
         def narrow_join(jk, loop_depth, can_ret, nc, depth):
             """-> statements: [narrow assignment,] join statement, one or two reads of the joined local"""
             state['nj'] += 1
-            if hidden and draw(st.booleans()):
-                nv = hidden[-1]         # the register is used again (what a register allocator does with a dead local)
+            if nregs and draw(st.booleans()):
+                nv = nregs[-1]          # the register is used again (what a register allocator does with a dead local)
             else:
                 nv = len(locals_)
                 locals_.append(I)
                 hidden.append(nv)
+                nregs.append(nv)
             order = list(draw(st.permutations(['i2b', 'i2s', 'i2c'])))
             deep_ok = depth + 1 < 3 or 'deep' in F
 
@@ -1662,6 +1855,297 @@ def programs(features=FEATURES, max_stmts=6):
                     break
             return out
 
+        def pick(options):
+            """uniform choice. Deep inside a large example sampled_from / integers lean heavily towards the first element /
+            small values (a fifth of all integers(0, 2**30) draws are 0), which starves the later alternatives of a construct:
+            these choices come from a generator that is re-seeded, before every decision about the two constructs, with a
+            checksum of a drawn seed and of everything generated so far (so still a function of the drawn values only)"""
+            return options[crng.randrange(len(options))]
+
+        def reseed(blk):
+            crng.seed(zlib.crc32(repr((crng_base, state, locals_, body, blk)).encode()))
+
+        def coin(n=2):
+            return crng.randrange(n) == 0
+
+        def lift(e):
+            """the int / long expression e as a term of the return type, or None"""
+            if e[1] == ret:
+                return e
+            if ret == J:
+                return ['k', J, 'i2l', e] if 'cast_i2l' in F else None
+            return ['k', I, 'l2i', e] if 'cast_l2i' in F else None
+
+        def read_into(term, can_ret, nc):
+            """one statement that reads `term` (an expression of the return type): the accumulator, or a return"""
+            if can_ret and (not use_acc or coin(3)):
+                with_acc = use_acc and ('dead_branch' not in F or coin())     # as in ret_stmt()
+                return ['ret', combine(ret, ['v', ret, acc], term) if with_acc else term]
+            if use_acc:
+                return ['set', acc, combine(ret, ['v', ret, acc], term)]
+            return None
+
+        def div_zero(can_ret, nested_ret, self_read, nc, nest_ok):
+            """-> statements around one division / remainder by zero (see programs())"""
+            state['dz'] += 1
+            vs = readable()
+            ty = pick([t for t in (I, I, J) if vs[t]])
+            op = pick(['div', 'rem'])
+            out = []
+
+            def dividend():
+                e = draw(expr(ty, vs, 1))
+                return e if _vars_of(e) else ['v', ty, pick(vs[ty])]
+
+            if crng.randrange(5) < 2:
+                z = len(locals_)           # a register that holds the constant 0
+                locals_.append(ty)
+                hidden.append(z)
+                if self_read or coin():
+                    zero_init.append(z)
+                else:
+                    out.append(['set', z, ['c', ty, 0]])
+                zero = ['v', ty, z]
+            else:
+                zero = ['c', ty, 0]
+
+            def hidden_local():
+                t = len(locals_)
+                locals_.append(ty)
+                hidden.append(t)
+                return t
+
+            uses = ['normal', 'normal']
+            if not self_read:
+                uses += ['dead', 'dead']
+                if 'if' in F and nest_ok and lift(['v', ty, 0]) is not None and (use_acc or nested_ret):
+                    uses += ['arm', 'arm']
+                    if nested_ret:
+                        uses += ['after_exit', 'after_exit']
+            use = pick(uses)
+            if use == 'dead':
+                t = hidden_local()
+                if coin(3):
+                    out.append(['set', t, dividend()])      # t = x; t = t / 0: the dividend is the target (2addr shape)
+                    out.append(['set', t, ['b', ty, op, ['v', ty, t], zero]])
+                else:
+                    out.append(['set', t, ['b', ty, op, dividend(), zero]])
+            elif use in ('arm', 'after_exit'):
+                t = hidden_local()
+                out.append(['set', t, ['b', ty, op, dividend(), zero]])
+                if coin(4):
+                    out.append(filler(False, nc))
+                term = lift(['v', ty, t])
+                other = [acc_update()] if use_acc else [filler(False, nc)]
+                if use == 'arm':
+                    reader = [read_into(term, nested_ret, nc)]
+                    if 'else' in F and coin():
+                        if nested_ret and coin(3):
+                            other = other + [ret_stmt(1)]
+                        arms = (reader, other) if coin() else (other, reader)
+                    else:
+                        arms = (reader, [])
+                    out.append(['if', cond(readable(), 1, 2, nc), arms[0], arms[1]])
+                else:
+                    leave = ([acc_update()] if use_acc and coin() else []) + [ret_stmt(1)]
+                    if 'else' in F and coin(3):
+                        out.append(['if', cond(readable(), 1, 2, nc), other, leave])
+                    else:
+                        out.append(['if', cond(readable(), 1, 2, nc), leave, []])
+                    out.append(read_into(term, can_ret, nc))
+            else:
+                wr = [w for w in writable() if locals_[w] == ty]
+                opts = []
+                if wr:
+                    opts += ['var', 'self']
+                if lift(['v', ty, 0]) is not None:
+                    if use_acc:
+                        opts += ['acc', 'acc']
+                    if can_ret and not self_read:
+                        opts += ['ret']
+                k = pick(opts) if opts else None
+                if k == 'var':
+                    out.append(assign(pick(wr), ['b', ty, op, dividend(), zero], self_read, nc))
+                elif k == 'self':
+                    w = pick(wr)
+                    out.append(assign(w, ['b', ty, op, ['v', ty, w], zero], self_read, nc))
+                elif k == 'acc':
+                    out.append(['set', acc, combine(ret, ['v', ret, acc], lift(['b', ty, op, dividend(), zero]))])
+                elif k == 'ret':
+                    e = lift(['b', ty, op, dividend(), zero])
+                    with_acc = use_acc and ('dead_branch' not in F or coin())
+                    out.append(['ret', combine(ret, ['v', ret, acc], e) if with_acc else e])
+            return out
+
+        def nr_kinds(loop_depth, self_read, nest_ok, nested_ret):
+            """the shapes of a narrow reuse that are legal here"""
+            if not nr_on or state['nr'] >= 1 or self_read or not nest_ok:
+                return []
+            if not (use_acc and (ret == I or 'cast_i2l' in F)) and not [w for w in writable() if locals_[w] == I]:
+                return []               # nothing could read the value
+            vs = readable()
+            if not vs[I] and not (vs[J] and 'cast_l2i' in F):
+                return []
+            ks = []
+            if 'if' in F:
+                ks += ['if', 'if']
+                if 'else' in F:
+                    ks += ['ifelse', 'ifelse']
+                if nested_ret and (ret == I or 'cast_i2l' in F):
+                    ks += ['ret_arm', 'ret_arm', 'ret_arm']
+            if ('packed' in F or 'sparse' in F) and loop_depth < 2:
+                ks.append('switch')
+            if ('while' in F or 'dowhile' in F) and state['loops'] < 2 and (loop_depth == 0 or 'nested' in F) and loop_depth < 2:
+                ks.append('loop')
+            return ks
+
+        def narrow_reuse(jk, can_ret, nc, depth):
+            """-> statements: a local that is a byte/short/char on one path and the operand of such a cast on another"""
+            state['nr'] += 1
+            if nregs and coin():
+                nv = nregs[-1]
+            else:
+                nv = len(locals_)
+                locals_.append(I)
+                hidden.append(nv)
+                nregs.append(nv)
+            kind = pick(['i2b', 'i2s', 'i2c'])
+            kind2 = kind if not coin(4) else pick(['i2b', 'i2s', 'i2c'])
+            deep_ok = depth + 1 < 3 or 'deep' in F
+            me = ['v', I, nv]
+            ret_ok = ret == I or 'cast_i2l' in F
+
+            def operand():
+                vs = readable()
+                e = draw(expr(I, vs, 1))
+                while e[0] == 'k' and e[2] in NARROW_LETTER:
+                    e = e[3]
+                if e[0] == 'c':
+                    if vs[I]:
+                        e = ['v', I, pick(vs[I])]
+                    else:
+                        e = ['k', I, 'l2i', ['v', J, pick(vs[J])]]
+                return e
+
+            def wide():
+                e = operand()
+                if e[0] == 'v' and bin_ops and coin():
+                    o = operand()
+                    op = pick(bin_ops)
+                    if op not in ('div', 'rem'):
+                        e = ['b', I, op, e, o]
+                return e
+
+            def narrow_set(k_, e=None):
+                return ['set', nv, ['k', I, k_, e if e is not None else operand()]]
+
+            def read_me(can_ret_here):
+                """one or two statements that read the local"""
+                opts = []
+                if use_acc and ret_ok:
+                    opts += ['acc', 'acc']
+                wr = [w for w in writable() if locals_[w] == I]
+                if wr:
+                    opts.append('var')
+                if can_ret_here and ret_ok:
+                    opts.append('ret')
+                u = pick(opts)
+                if u == 'acc':
+                    return [['set', acc, combine(ret, ['v', ret, acc], lift(me))]]
+                if u == 'var':
+                    e = me if coin(3) else combine(I, me, draw(expr(I, readable(), 1)))
+                    return [assign(pick(wr), e, False, nc)]
+                with_acc = use_acc and ('dead_branch' not in F or coin())
+                return [['ret', combine(ret, ['v', ret, acc], lift(me)) if with_acc else lift(me)]]
+
+            def cast_use(k_, can_ret_here, in_body=False):
+                """statements that apply the cast to the local: into the accumulator, another local, the local itself, a return"""
+                cast = ['k', I, k_, me]
+                opts = ['self'] if not in_body else []
+                if use_acc and ret_ok:
+                    opts += ['acc', 'acc']
+                wr = [w for w in writable() if locals_[w] == I]
+                if wr:
+                    opts.append('var')
+                if can_ret_here and ret_ok and not in_body:
+                    opts.append('ret')
+                u = pick(opts)
+                if u == 'self':
+                    return [['set', nv, cast]] + read_me(can_ret_here)
+                if u == 'acc':
+                    return [['set', acc, combine(ret, ['v', ret, acc], lift(cast))]]
+                if u == 'var':
+                    return [assign(pick(wr), cast, in_body, nc)]
+                with_acc = use_acc and ('dead_branch' not in F or coin())
+                return [['ret', combine(ret, ['v', ret, acc], lift(cast)) if with_acc else lift(cast)]]
+
+            def arm(stmts):
+                if coin(4):
+                    stmts = [filler(False, nc)] + stmts
+                return with_effect(stmts) if falls(stmts) else stmts
+
+            out = []
+            if jk == 'ret_arm':
+                out.append(['set', nv, wide()])
+                if not coin(3):
+                    # R = wide; if (c) { R = (K) e; return R; } .. (K) R ..
+                    out.append(['if', cond(readable(), 1, 2, nc), arm([narrow_set(kind)] + read_me(True)[:1]), []])
+                    if falls(out[-1][2]):
+                        out[-1][2].append(['ret', combine(ret, ['v', ret, acc], lift(me)) if use_acc else lift(me)])
+                    out += cast_use(kind2, can_ret)
+                else:
+                    # the mirror image: R = wide; if (c) return (K) R; R = (K) e; .. R ..
+                    c_ = ['k', I, kind2, me]
+                    out.append(['if', cond(readable(), 1, 2, nc),
+                                arm([['ret', combine(ret, ['v', ret, acc], lift(c_)) if use_acc else lift(c_)]]), []])
+                    out.append(narrow_set(kind))
+                    out += read_me(can_ret)
+            elif jk == 'if':
+                out.append(['set', nv, wide()])
+                out.append(['if', cond(readable(), 1, 2, nc), arm([narrow_set(kind)]), []])
+                out += cast_use(kind2, can_ret)
+            elif jk == 'ifelse':
+                out.append(['set', nv, wide()])
+                a_, b_ = arm([narrow_set(kind)]), arm([['set', nv, ['k', I, kind2, me]]])
+                if coin():
+                    a_, b_ = b_, a_
+                out.append(['if', cond(readable(), 1, 2, nc), a_, b_])
+                out += read_me(can_ret)
+            elif jk == 'switch':
+                out.append(['set', nv, wide()])
+                skind = pick([x for x in ('packed', 'sparse') if x in F])
+                e = operand()
+                ncase = pick([2, 3])
+                if skind == 'packed':
+                    first = pick(range(6))
+                    keys = list(range(first, first + ncase))
+                else:
+                    keys = sorted(draw(st.lists(st.integers(0, 127), min_size=ncase, max_size=ncase, unique=True)))
+                blocks = [arm([narrow_set(kind)]), arm([['set', nv, ['k', I, kind2, me]]])]
+                if ncase == 3:
+                    blocks.append(arm([narrow_set(kind)]) if coin() else arm([['set', nv, ['k', I, kind, me]]]))
+                blocks = list(draw(st.permutations(blocks)))
+                dflt = arm([narrow_set(kind)]) if coin(3) else []
+                out.append(['switch', e, [[[key], blk_, False] for key, blk_ in zip(keys, blocks)], dflt, skind])
+                out += cast_use(kind2, can_ret) if coin() else read_me(can_ret)
+            elif jk == 'loop':
+                state['loops'] += 1
+                out.append(narrow_set(kind))
+                cv = len(locals_)
+                locals_.append(I)
+                counters.append(cv)
+                lk = pick([x for x in ('while', 'dowhile') if x in F])
+                inner_nc = None if 'const_loop_cond' in F else (nc_base | {cv} | ((nc or set()) - nc_base))
+                extra = cond(readable(), 1, 1, inner_nc) if ('compound' in F and coin(4)) else None
+                body = cast_use(kind2, False, True)
+                o = operand()
+                wops = [x for x in bin_ops if x not in ('div', 'rem')]
+                body.append(['set', nv, ['b', I, pick(wops), me, o]] if wops else narrow_set(kind2, me))
+                out.append(['loop', lk, cv, pick([2, 3, 4, 5]), pick([1, 1, 2]), extra, with_effect(body)])
+                if coin():
+                    out += cast_use(kind2, can_ret)
+            return [x for x in out if x is not None]
+
         def gen_block(loop_depth, in_loop, allow_ret, size, self_read, nc, in_if=False, in_case=False, depth=0):
             """self_read: inside a do-while body with dowhile_kill off. nc: the never-constant variables that conditions
             must read here (None outside loops or when const_loop_cond is on)"""
@@ -1685,11 +2169,30 @@ def programs(features=FEATURES, max_stmts=6):
                 njk = nj_kinds(loop_depth, self_read, nest_ok)
                 if njk:
                     kinds += ['njoin', 'njoin']
+                # a return as a statement of this block / nested in an if of this block
+                can_ret = allow_ret and loop_depth == 0 and not in_loop and (depth == 0 or 'early_return' in F)
+                nested_ret = can_ret and 'early_return' in F and nest_ok and (not in_case or 'switch_inner_return' in F)
+                nrk = nr_kinds(loop_depth, self_read, nest_ok, nested_ret)
                 k = draw(st.sampled_from(kinds))
+                if (dz_on and state['dz'] < 1) or nrk:
+                    # the rates of these two constructs are set here, independently of the other statement kinds
+                    reseed(blk)
+                    r = crng.randrange(100)
+                    if r < DZ_PERCENT and dz_on and state['dz'] < 1:
+                        k = 'divzero'
+                    elif DZ_PERCENT <= r < DZ_PERCENT + NR_PERCENT and nrk:
+                        k = 'nreuse'
                 vs = readable()
                 if k == 'njoin':
-                    can_ret = allow_ret and loop_depth == 0 and not in_loop and (depth == 0 or 'early_return' in F)
                     blk += narrow_join(draw(st.sampled_from(njk)), loop_depth, can_ret, nc, depth)
+                    if not falls(blk):
+                        break
+                elif k == 'nreuse':
+                    blk += narrow_reuse(pick(nrk), can_ret, nc, depth)
+                    if not falls(blk):
+                        break
+                elif k == 'divzero':
+                    blk += [x for x in div_zero(can_ret, nested_ret, self_read, nc, nest_ok) if x is not None]
                     if not falls(blk):
                         break
                 elif k == 'set':
@@ -1796,7 +2299,7 @@ def programs(features=FEATURES, max_stmts=6):
             else:
                 body.append(ret_stmt(draw(st.integers(0, 3))))
         # loop counters are locals too: give them their initial value up front (definite assignment)
-        init = [['set', cv, ['c', I, 0]] for cv in counters]
+        init = [['set', cv, ['c', I, 0]] for cv in counters] + [['set', z, ['c', locals_[z], 0]] for z in zero_init]
         body = body[:ninit] + init + body[ninit:]
         if 'narrow_switch' not in F and _has_wide_case_label(body):
             body = _strip_narrow(body)
